@@ -18,7 +18,7 @@ REPO = os.environ.get("VERIF_REPO", "/repo")
 SPEC = os.path.join(VERIF, "spec")
 HARNESS = os.path.join(VERIF, "harness")
 EVIDENCE = os.path.join(VERIF, "evidence")
-if os.path.realpath(REPO) != "/repo" and not os.environ.get("VERIF_EVIDENCE_HERE"):
+if os.environ.get("VERIF_REPO") and os.path.normpath(REPO) != "/repo" and not os.environ.get("VERIF_EVIDENCE_HERE"):
     # a run against a scratch tree (VERIF_REPO=<worktree with a seeded change>) must not overwrite the evidence
     # of the real tree
     EVIDENCE = os.path.join(os.environ.get("VERIF_SCRATCH", "/var/tmp"), "verif.evidence.alt")
